@@ -19,7 +19,7 @@ RULE = ("class shapes = base class + registered subclass with members of every k
 ASSUMPTIONS = ["classes with their own __getattr__/metaclass tricks are outside the quantifier", "'refused' = an exception reply of any type (no reply for oneway)",
                "a call-kind request naming an *exposed* property may run that property's getter before being refused"]
 REQUIRED_REACH = ["withdrawn_exposure_refused", "daemon_interface_ok", "dynamic_exposure_stages_ok", "surplus_argument_requests", "served_ok", "refused_ok", "oneway_checked", "metadata_checked", "nonstring_names", "decoration_refusals", "reregistrations_on_live_connection"]
-SHARD_TIMEOUT = {"quick": 240, "thorough": 2800}
+SHARD_TIMEOUT = {"quick": 480, "thorough": 2800}
 
 RESERVED = ["__init__", "__init_subclass__", "__class__", "__module__", "__weakref__", "__call__", "__new__", "__del__", "__repr__", "__str__",
             "__format__", "__nonzero__", "__bool__", "__coerce__", "__cmp__", "__eq__", "__ne__", "__hash__", "__ge__", "__gt__", "__le__", "__lt__",
